@@ -13,7 +13,7 @@ MC_DEPTH = {
 # generation slices: name -> (quick MaxDepth, thorough MaxDepth)
 GEN_DEPTH = {
     "GEN_relayA": (6, 7), "GEN_relayB": (6, 7), "GEN_relayD": (4, 5), "GEN_time": (7, 8), "GEN_users": (5, 6),
-    "GEN_iso": (4, 5), "GEN_v6": (4, 5), "GEN_v6strict": (5, 6), "GEN_mtu": (4, 4), "GEN_mtu1200": (4, 4), "GEN_resv": (4, 5), "GEN_recycle": (7, 8), "GEN_stream": (5, 6), "GEN_quota": (5, 6),
+    "GEN_iso": (4, 5), "GEN_v6": (4, 5), "GEN_v6strict": (5, 6), "GEN_mtu": (4, 4), "GEN_mtu1200": (4, 4), "GEN_resv": (4, 5), "GEN_recycle": (7, 8), "GEN_chan3": (8, 9), "GEN_stream": (5, 6), "GEN_quota": (5, 6),
 }
 
 
@@ -180,7 +180,7 @@ def c12_run(ctx):
 
 
 def c08_run(ctx):
-    with_server_trace(core_run(["MC_relay", "MC_relayB"], ["GEN_relayA", "GEN_relayB", "GEN_relayD", "GEN_recycle"]))(ctx)
+    with_server_trace(core_run(["MC_relay", "MC_relayB"], ["GEN_relayA", "GEN_relayB", "GEN_relayD", "GEN_recycle", "GEN_chan3"]))(ctx)
     if not ctx.violations:   # the table invariants of the specification after histories of any length
         ctx.apalache_inductive("ChanInd.tla")
 
@@ -243,7 +243,7 @@ PROPS = {
                                            "bytes are compared and when, for the credential-defect classes of TurnAuth.tla and the mutation classes of Nonce.tla",
                                            "nonce ages 3601..3659 s are a grey band (implementation granularity) that is never probed"]),
     "C04": dict(title="allocations are isolated by 5-tuple", level="model_checking",
-                run=with_server_trace(core_run(["MC_iso", "MC_relay", "MC_stream"], ["GEN_iso", "GEN_relayD", "GEN_v6", "GEN_tcpB", "GEN_relaygenA", "GEN_stream"])),
+                run=with_server_trace(core_run(["MC_iso", "MC_relay", "MC_stream"], ["GEN_iso", "GEN_relayD", "GEN_v6", "GEN_tcpB", "GEN_relaygenA", "GEN_stream", "GEN_reaper"])),
                 assumptions=BASE_ASSUME),
     "C05": dict(title="payloads intact, exactly once, truthful attribution", level="model_checking",
                 run=c05_run,
@@ -255,7 +255,7 @@ PROPS = {
                 run=with_server_trace(core_run(["MC_time", "MC_life", "MC_stream", "MC_reaper"], ["GEN_time", "GEN_users", "GEN_relayA", "GEN_lifeA", "GEN_stream", "GEN_reaper", "GEN_reaperS"])),
                 assumptions=BASE_ASSUME),
     "C07": dict(title="permissions and channels live one full timeout past their last refresh", level="model_checking",
-                run=with_server_trace(core_run(["MC_relay", "MC_relayB", "MC_steps"], ["GEN_relayA", "GEN_relayB", "GEN_steps"])),
+                run=with_server_trace(core_run(["MC_relay", "MC_relayB", "MC_steps"], ["GEN_relayA", "GEN_relayB", "GEN_steps", "GEN_chan3"])),
                 assumptions=BASE_ASSUME + ["instants at which a timer is due are explored only by the gated schedules of TurnServerSteps.tla (a refresh racing the pending expiry callback: known finding D14)"]),
     "C08": dict(title="channel bindings are a bijection inside 0x4000-0x7FFF", level="model_checking",
                 run=c08_run,
